@@ -673,6 +673,7 @@ func Main() {
 	run.Assume("crash = process death (SIGKILL) with intact page cache; torn writes and power loss are out of scope")
 	run.Assume("crash points exist where vhook.Point calls were placed: between every pair of file-system effects of UTXO save/commit/undo, block store writes, flag rewrites, reorganisation steps")
 	run.Assume("client-style reopen re-implements do_the_blocks/LocalAcceptBlock of client/main.go in the harness (package main cannot be imported)")
+	os.RemoveAll(tmp) // Finish exits the process: deferred clean-up would not run
 	run.Finish("each evaluation = one (workload, crash point #n, reopen mode) triple: worker killed at the n-th hit of a hook point, directory reopened by a fresh process, tip/UTXO judged against the reference, remaining blocks fed, final state judged; distinct_nontrivial = distinct (workload, hook point, n)",
 		"reopen_judged", "crash_points", 10)
 }
